@@ -51,6 +51,29 @@ theorem PMT_section_length_law (s : PMT) :
     (PMT_body s).length + 4 = 3 + PMT_slen s := by
   simp [PMT_body, PMT_hdr, PMT_slen]; omega
 
+/-- PMT.roundtrip (0..k descriptors and streams), into an object in ANY prior state: the decoder
+    returns True (CRC verified), every field, descriptor and stream comes back in order,
+    `program_info_len` is the size of the descriptor loop, `_crc` is the stored CRC, and re-encoding
+    the decoded object reproduces the bytes.  Preconditions: sync byte 0x47, adaptation control 1
+    or 3 (a PMT packet needs a payload — a fresh object has control 0, see notes E6), the section
+    fits the packet. -/
+theorem PMT_roundtrip (s t : PMT) (h : PMT_WF s) (hs : s.pkt.sync = 0x47)
+    (hafc : s.pkt.adaption_ctrl = 1 ∨ s.pkt.adaption_ctrl = 3) (hf : Pkt_used (PMT_pkt s) ≤ 188) :
+    ∃ b, (PMT.pack s).2 = .ok b ∧ b.length = 188 ∧
+      PMT.unpack t b = (PMT_decoded s, .ok true) ∧
+      (PMT_decoded s).descriptor_tags = s.descriptor_tags ∧ (PMT_decoded s).streams = s.streams ∧
+      (PMT_decoded s).tableid = s.tableid ∧ (PMT_decoded s).syntax_indicator = s.syntax_indicator ∧
+      (PMT_decoded s).program_number = s.program_number ∧ (PMT_decoded s).version = s.version ∧
+      (PMT_decoded s).current_next_indicator = s.current_next_indicator ∧ (PMT_decoded s).sectionNo = s.sectionNo ∧
+      (PMT_decoded s).last_section = s.last_section ∧ (PMT_decoded s).pcr_pid = s.pcr_pid ∧
+      (PMT_decoded s).program_info_len = (s.descriptor_tags.flatMap Desc_bytes).length ∧
+      (PMT.pack (PMT_decoded s)).2 = .ok b := by
+  obtain ⟨hwd, hbd⟩ := PMT_decoded_pack s h hf
+  refine ⟨Pkt_bytes (PMT_pkt s), by rw [PMT_pack_eq s h], ?_, PMT_unpack_bytes s t h hs hafc,
+    rfl, rfl, rfl, rfl, rfl, rfl, rfl, rfl, rfl, rfl, rfl, ?_⟩
+  · rw [Pkt_bytes_length]; omega
+  · rw [PMT_pack_eq _ hwd, hbd]
+
 example : PMT_WF { PMT.fresh with
     pkt := { Pkt.fresh with adaption_ctrl := 1 }, program_number := 1, pcr_pid := 0x100,
     descriptor_tags := [{ tag := some 5, data := [1, 2] }],
